@@ -16,6 +16,7 @@ import base64
 import json
 import os
 import random
+import shutil
 
 DRIVER = "drv_c02"
 RULE = ("projects: random recipe trees (3..12 recipe files, classes with inheritance, multiPackage, environment / "
@@ -50,7 +51,10 @@ def _eval_member(item):
     proj = G.Project.from_json(pj)
     os.makedirs(root, exist_ok=True)
     proj.write(root, random.Random(oseed))
-    return evalproj.evaluate(root, sandbox, proj, cap)
+    try:
+        return evalproj.evaluate(root, sandbox, proj, cap)
+    finally:
+        shutil.rmtree(root, ignore_errors=True)
 
 
 def _eval_revert(item):
@@ -65,6 +69,7 @@ def _eval_revert(item):
         proj.write(root, None, atomic=k > 0)
         r = evalproj.evaluate(root, sandbox, None, cap)
         out.append(None if "error" in r else {s["key"]: s["vid"] for s in r["steps"]})
+    shutil.rmtree(root, ignore_errors=True)
     return out
 
 
@@ -206,60 +211,112 @@ def _witness_families():
 
 
 def _evaluate_families(ctx, fams, tag, cap=400):
-    items, index = [], []
+    """evaluate all members of a few families in this process"""
+    _warm()
     for fi, fam in enumerate(fams):
         for mi, m in enumerate(fam):
             root = os.path.join(ctx.tmp, "%s-%d-%d" % (tag, fi, mi))
-            items.append((root, m["project"], m["sandbox"], "%s/%d/%d" % (ctx.seed, fi, mi), cap))
-            index.append((fi, mi))
-    _warm()
-    results = ctx.parallel(_eval_member, items)
-    for (fi, mi), r in zip(index, results):
-        fams[fi][mi]["result"] = r
+            m["result"] = _eval_member((root, m["project"], m["sandbox"], "%s/%d/%d" % (ctx.seed, fi, mi), cap))
     return fams
 
 
+def _stream(ctx, fn, items, deadline_left):
+    """ordered results of fn over items from one fork pool, until `ctx.time_left()` drops below `deadline_left`;
+    yields (index, result)"""
+    import multiprocessing as mp
+    _warm()
+    if ctx.time_left() < deadline_left:
+        return
+    pool = mp.get_context("fork").Pool(min(16, os.cpu_count() or 4))
+    try:
+        it = pool.imap(fn, items, chunksize=1)
+        i = 0
+        while True:
+            try:
+                r = it.next(timeout=max(0.5, ctx.time_left() - deadline_left))
+            except StopIteration:
+                break
+            except mp.TimeoutError:
+                break
+            yield i, r
+            i += 1
+            if ctx.time_left() < deadline_left:
+                break
+    finally:
+        pool.terminate()
+        pool.join()
+
+
+def _account_family(ctx, fam):
+    nerr = sum(1 for m in fam if m["result"] is None or "error" in m["result"])
+    ctx.count("members", "parse-error", nerr)
+    ctx.count("members", "ok", len(fam) - nerr)
+    for m in fam[1:]:
+        ctx.count("edit_kind", m["edit"]["kind"])
+        if m["result"] and "steps" in m["result"] and fam[0]["result"] and "steps" in fam[0]["result"]:
+            b = {s["key"]: s["vid"] for s in fam[0]["result"]["steps"]}
+            ch = sum(1 for s in m["result"]["steps"] if b.get(s["key"]) not in (None, s["vid"]))
+            ctx.count("edit_effect", "changes-ids" if ch else "keeps-ids")
+    check_family(ctx, fam)
+
+
 def oracle(ctx):
+    import time
     nfam = ctx.scale(40, 1500)
     nedits = ctx.scale(25, 60)
+    nmin = 3          # families that are always evaluated (in this process), whatever the machine load is
     all_fams = []
+    t_oracle = ctx.time_left()
+    t0 = time.time()
     # the reproductions of the known collisions are always part of the stream
     wf = _evaluate_families(ctx, _witness_families(), "wit")
     for fam in wf:
         check_family(ctx, fam)
     all_fams.extend(wf)
-    batch = 16
     done = 0
-    budget_end = ctx.time_left() * 0.45
-    while done < nfam and ctx.time_left() > budget_end:
-        fams = [_family(ctx, i, nedits) for i in range(done, min(nfam, done + batch))]
-        fams = _evaluate_families(ctx, fams, "fam%d" % done)
-        for fam in fams:
-            nerr = sum(1 for m in fam if m["result"] is None or "error" in m["result"])
-            ctx.count("members", "parse-error", nerr)
-            ctx.count("members", "ok", len(fam) - nerr)
-            for m in fam[1:]:
-                ctx.count("edit_kind", m["edit"]["kind"])
-                if m["result"] and "steps" in m["result"] and fam[0]["result"] and "steps" in fam[0]["result"]:
-                    b = {s["key"]: s["vid"] for s in fam[0]["result"]["steps"]}
-                    ch = sum(1 for s in m["result"]["steps"] if b.get(s["key"]) not in (None, s["vid"]))
-                    ctx.count("edit_effect", "changes-ids" if ch else "keeps-ids")
-            check_family(ctx, fam)
-        all_fams.extend(fams)
-        done += len(fams)
+    for fi in range(min(nmin, nfam)):
+        fam = _evaluate_families(ctx, [_family(ctx, fi, nedits)], "min%d" % fi)[0]
+        _account_family(ctx, fam)
+        all_fams.append(fam)
+        done += 1
+    ctx.notes["t_minimal_s"] = round(time.time() - t0, 1)
+    fams = {}
+
+    def items():
+        for fi in range(nmin, nfam):
+            fam = _family(ctx, fi, nedits)
+            fams[fi] = fam
+            for mi, m in enumerate(fam):
+                yield (os.path.join(ctx.tmp, "fam-%d-%d" % (fi, mi)), m["project"], m["sandbox"], "%s/%d/%d" % (ctx.seed, fi, mi), 400)
+
+    index = [(fi, mi) for fi in range(nmin, nfam) for mi in range(nedits + 1)]
+    for i, r in _stream(ctx, _eval_member, items(), t_oracle * 0.5):
+        fi, mi = index[i]
+        fams[fi][mi]["result"] = r
+        if mi == nedits:
+            fam = fams.pop(fi)
+            _account_family(ctx, fam)
+            all_fams.append(fam)
+            done += 1
     ctx.notes["families"] = done
+    ctx.notes["t_families_s"] = round(time.time() - t0, 1)
+    if done < nfam:
+        ctx.notes["families_cut_by_time"] = nfam - done
     # edit + revert in place restores the ids
-    items, meta = [], []
+    items2, meta = [], []
     r = ctx.subrng("revert")
     for fi, fam in enumerate(all_fams[len(wf):][:ctx.scale(24, 300)]):
         if len(fam) < 2:
             continue
         mi = r.randrange(1, len(fam))
-        items.append((os.path.join(ctx.tmp, "rev-%d" % fi), fam[0]["project"], fam[mi]["project"], fam[0]["sandbox"], 400))
+        items2.append((os.path.join(ctx.tmp, "rev-%d" % fi), fam[0]["project"], fam[mi]["project"], fam[0]["sandbox"], 400))
         meta.append((fam, mi))
-    if items and not ctx.out_of_time():
-        for (fam, mi), res in zip(meta, ctx.parallel(_eval_revert, items)):
-            check_revert(ctx, fam, mi, res)
+    # the first two in this process (always), the others from a pool while time permits
+    for it, (fam, mi) in list(zip(items2, meta))[:2]:
+        check_revert(ctx, fam, mi, _eval_revert(it))
+    for i, res in _stream(ctx, _eval_revert, items2[2:], t_oracle * 0.42):
+        check_revert(ctx, meta[i + 2][0], meta[i + 2][1], res)
+    ctx.notes["t_oracle_s"] = round(time.time() - t0, 1)
     _CACHE["fams"] = all_fams
 
 
@@ -524,6 +581,8 @@ def correspond(ctx):
     r = ctx.subrng("synth")
     reqs, want, cases = [], [], []
     for i in range(ctx.scale(4000, 120000)):
+        if ctx.time_left() < 12 and i >= 300:
+            break
         d = gen_synth(r)
         mode = r.choice(["vid", "vid", "bid"])
         platform = r.choice([b"", b"w", b"ml"])
@@ -541,6 +600,8 @@ def correspond(ctx):
     r = ctx.subrng("merge")
     reqs, want, cases = [], [], []
     for i in range(ctx.scale(4000, 100000)):
+        if ctx.time_left() < 6 and i >= 300:
+            break
         fr = gen_frags(r)
         glue = r.choice(["\ncd \"${BOB_CWD}\"\n", "\n", "", ";"])
         reqs.append({"op": "merge", "frags": fr, "glue": glue})
